@@ -164,9 +164,31 @@ package arch
 //@     invariant [C02 C15] header-kept: inlined() || strings.HasPrefix(buf.String(), pkginfoHead(info, totalSize))
 //@     invariant [C08] lines-so-far: 0 <= iter && iter <= len(info.Contents) && implies(!inlined() && pkgverAgrees(info), buf.String() == pkginfoHead(info, totalSize) + pkginfoLists(info) + backupLines(info.Contents, iter))
 //
+//@ spec func mtreeLine(me MtreeEntry) string {
+//@     switch me.Type {
+//@     case "dir", "implicit dir":
+//@         return fmt.Sprintf("./%s time=%d.0 mode=%o type=dir\n", me.Destination, me.Time, me.Mode)
+//@     case "symlink":
+//@         return fmt.Sprintf("./%s time=%d.0 mode=%o type=link link=%s\n", me.Destination, me.Time, me.Mode, me.LinkSource)
+//@     }
+//@     return fmt.Sprintf("./%s time=%d.0 mode=%o size=%d type=file md5digest=%x sha256digest=%x\n", me.Destination, me.Time, me.Mode, me.Size, me.MD5, me.SHA256)
+//@ }
+//
+//@ spec func mtreeLines(entries []MtreeEntry, n int) string {
+//@     return foldStr(n, func(i int) string { return mtreeLine(entries[i]) })
+//@ }
+//
+//@ import "fmt"
+//@ import "github.com/klauspost/pgzip"
+//
 //@ inline func createMtree(tw *tar.Writer, entries []MtreeEntry, mtime time.Time) (err error)
-//@   loop 0
+//@   requires [C03] tw != nil
+//@   requires !ghostFlag("failed")
+//@   ensures [C03] one-line-per-entry-in-order: implies(err == nil, globStr("compressedInput") == "#mtree\n" + mtreeLines(entries, len(entries)))
+//@   ensures [C04] entry-name: implies(err == nil, ghostStr(tw, "lastName") == ".MTREE")
+//@   loop 0 (iter int, gw *pgzip.Writer)
 //@     invariant [C06] no-failure-so-far: !ghostFlag("failed")
+//@     invariant [C03] lines-so-far: inlined() || (gw != nil && 0 <= iter && iter <= len(entries) && !ghostBool(gw, "zclosed") && ghostAny(gw, "werr") == nil && ghostStr(gw, "accepted") == "#mtree\n" + mtreeLines(entries, iter))
 //
 //@ inline func writeScripts(w io.Writer, scripts map[string]string) (err error)
 //@   loop 0 unroll 7
